@@ -270,8 +270,15 @@ class Exec:
         if isinstance(op, ast.Add):
             if a.kind == 'acc' and b.kind == 'mat':
                 return Val('accsum', fin(b), acc=a)
+            if a.kind == 'mat' and b.kind == 'acc':     # `acc = term + acc`: elementwise + is commutative, exactly
+                return Val('accsum', fin(a), acc=b)
             if a.kind == 'mat' and b.kind == 'mat':
-                return mat('(madd %s %s)' % (fin(a), fin(b)))
+                x, y = fin(a), fin(b)
+                # numpy's elementwise + is commutative (exactly, in binary64 too): `Rek + first_part` and
+                # `first_part + Rek` are one tree, the accumulated sum first
+                if 'sumMat' in y and 'sumMat' not in x:
+                    x, y = y, x
+                return mat('(madd %s %s)' % (x, y))
         if isinstance(op, ast.Sub) and a.kind == 'mat' and b.kind == 'mat':
             return mat('(msub %s %s)' % (fin(a), fin(b)))
         if isinstance(op, ast.Mult):
